@@ -448,7 +448,7 @@ fn dims_space(thorough: bool, query_carrier: bool) -> Vec<Vec<u8>> {
             vec![0, 1, 2, 4, 8, 15],
             vec![0, 1, 2, 4],
             vec![0, 1, 2, 3, 4],
-            vec![0, 1, 3, 6, 7],
+            vec![0, 1, 2, 3, 6, 7],
             vec![0, 1, 3, 5],
             full(4),
             full(2),
